@@ -14,6 +14,9 @@ type Scenario struct {
 	Run func(ctx *Ctx)
 	// Replay re-runs one recorded case (the "case" object of a replay or corpus file).
 	Replay func(ctx *Ctx, c json.RawMessage)
+	// Prepare (optional) runs before the proof step, e.g. to regenerate a Lean file that is
+	// derived from /repo's sources. Failures it finds are reported through ctx like any other.
+	Prepare func(ctx *Ctx)
 }
 
 var scenarios = map[string]Scenario{}
